@@ -213,7 +213,7 @@ def run_families(chk, tier):
     outage at each of sends 250..260 (packet id wrap)."""
     n = 0
     for gen in (4, 5):
-        for k in range(1, 11):
+        for k in range(1, 14):          # 11..13: the surplus is refused with the overflow error - and stays refused
             for first in ("down-from-start", "after-eof"):
                 if first == "down-from-start":
                     script = [("send", k), ("settle",), ("accept",), ("settle",)]
